@@ -1,4 +1,5 @@
 """C11 — cached results are reused exactly for requests equal in all they depend on."""
+import base64
 import copy
 import json
 import os
@@ -24,8 +25,11 @@ def regenerate(R):
     if p.returncode != 0:
         return "extractor does not build: " + p.stderr[-800:]
     p = subprocess.run([exe, "-repo", vlib.REPO], capture_output=True, text=True)
+    err = None
     if p.returncode != 0:
-        return "extractor failed closed: " + p.stderr[-800:]
+        err = "extractor failed closed: " + p.stderr[-800:]
+        if p.returncode != 3 or "end Heimdall.Gen.CacheKeys" not in p.stdout:
+            return err
     path = os.path.join(vlib.LEAN, "HeimdallModel", "Gen", "CacheKeys.lean")
     with vlib.LeanLock():
         old = open(path).read() if os.path.exists(path) else ""
@@ -33,8 +37,8 @@ def regenerate(R):
             with open(path, "w") as fh:
                 fh.write(p.stdout)
     R.coverage["generated_key_functions"] = p.stdout.count(": List Field := [")
-    R.coverage["generated_fields"] = len(re.findall(r"^\s+\.(?:raw|fixed|u64|lp|joined|lpList|mapRaw|lpMap|opt) ", p.stdout, re.M))
-    return None
+    R.coverage["generated_fields"] = len(re.findall(r"^\s+\.(?:raw|fixed|u64|lp|joined|lpList|mapRaw|lpMap|opt|tag) ", p.stdout, re.M))
+    return err
 
 
 def harness_env(R):
@@ -130,7 +134,7 @@ def mech_key_cases(rng, n):
 # -----------------------------------------------------------------------------------------------------------------
 # stream B: histories
 
-OUT = {"ok": "ok", "authentication": "rejected", "authorization": "rejected", "communication": "failed"}
+OUT = {"ok": "ok", "authentication": "rejected", "authorization": "rejected", "internal": "rejected", "communication": "failed"}
 
 
 def scopes_of(step):
@@ -146,11 +150,35 @@ def level_of(m, step):
 
 
 def accepts(m, pol, step):
+    """would the rule-level validation `pol` accept the response computed for the inputs of `step` (predicted from the
+    behaviour of the echo server and of the decoders: JSON numbers are floats, YAML integers are integers, form values
+    are lists of strings, text is a string, an empty body is no payload at all)"""
     if m["kind"] == "introspection":
         return all(s in scopes_of(step) for s in pol)
     if m["kind"] == "remoteAuthorizer":
-        return level_of(m, step) >= pol
+        if not pol:
+            return True
+        ct = m.get("ct", "json")
+        lvl = level_of(m, step)
+        if isinstance(pol, int):
+            return ct in ("json", "yaml") and lvl >= pol
+        if pol == "mod":
+            return ct == "yaml" and lvl % 2 == 1
+        if pol == "type":
+            return ct == "yaml"
+        if pol == "idx":
+            return ct in ("json", "yaml", "form")
     return True
+
+
+def predicted_failure(m, step):
+    """does the echo server answer 500 (it does when it sees `fail500`)"""
+    tok = g.header_of(step, "X-Token")
+    if m["kind"] == "introspection":
+        return "fail500" in tok
+    if m["kind"] == "genericAuthenticator":
+        return "fail500" in tok and any(p[0] == "auth" for p in (m.get("payload") or []))
+    return False
 
 
 def driver_run_case(m, steps, impl):
@@ -166,8 +194,9 @@ def driver_run_case(m, steps, impl):
         dsteps.append({"t": i, "env": env, "policy": pid, "enabled": en, "ttl": ttl})
     verdicts = [{"policy": pid, "origin": j, "ok": accepts(m, pol, s)} for pol, pid in pol_ids.items()
                 for j, s in enumerate(steps)]
-    fails = [j for j, r in enumerate(impl["off"]) if r["out"] == "communication"]
-    return {"fam": "cachekey", "op": "run", "fn": m["kind"], "steps": dsteps, "verdicts": verdicts, "fails": fails}
+    fails = [j for j, s in enumerate(steps) if predicted_failure(m, s)]
+    fn = "clientCredentialsKey" if m["kind"] == "ccFinalizer" else m["kind"]
+    return {"fam": "cachekey", "op": "run", "fn": fn, "steps": dsteps, "verdicts": verdicts, "fails": fails}
 
 
 def judge_history(m, steps, impl, mo):
@@ -183,15 +212,20 @@ def judge_history(m, steps, impl, mo):
             res.append(("spec", f"step {i}: decision with cache {a['out']}, without cache {b['out']}"))
         elif a["out"] == "ok" and compare_echo and a["echo"] != b["echo"]:
             res.append(("spec", f"step {i}: served a result computed for other inputs (with cache {a['echo']}, fresh {b['echo']})"))
+        elif a["out"] == "ok" and compare_echo and (a.get("typed") != b.get("typed") or a.get("up") != b.get("up")):
+            res.append(("spec", f"step {i}: the result differs from a fresh one in its types or forwarded headers "
+                                f"(with cache {a.get('typed')} / {a.get('up')}, fresh {b.get('typed')} / {b.get('up')})"))
     # SPEC 2: reuse — an identical request under the same rule after a successful one causes no remote call
     epoch, e = [], 0
     for s in steps:
         e += 1 if s.get("rotate") else 0
         epoch.append(e)
-    plain = [{k: v for k, v in s.items() if k != "rotate"} for s in steps]
+    plain = [{k: v for k, v in s.items() if k != "rotate" and not k.startswith("_")} for s in steps]
     for j in range(len(steps)):
         for i in range(j):
-            if plain[i] == plain[j] and epoch[i] == epoch[j] and on[i]["out"] == "ok" and (on[i].get("stored") or on[i]["hit"]):
+            # the earlier identical request was answered (its uncached evaluation succeeds) under a rule that caches
+            if plain[i] == plain[j] and epoch[i] == epoch[j] and off[i]["out"] == "ok" and \
+                    g.cache_of(m, steps[i].get("override", 0))[0]:
                 if g.cache_of(m, steps[j].get("override", 0))[0] and on[j]["calls"] != 0 and kind != "jwtFinalizer":
                     res.append(("spec", f"step {j} repeats step {i} (answered and cached) but called the remote system again"))
                 if kind == "jwtFinalizer" and not on[j]["hit"]:
@@ -253,6 +287,24 @@ def run_histories(R, exe, hist, stats):
         stats["rejected"] += sum(1 for r in i["off"] if OUT.get(r["out"]) == "rejected")
         stats["failed"] += sum(1 for r in i["off"] if OUT.get(r["out"]) == "failed")
         stats["rule_overrides_used"] += len({s.get("override", 0) for s in steps}) - 1
+        # dimensions of the quantifier actually produced
+        if "ct" in m:
+            stats["dim:response_" + m["ct"]] += 1
+        if m["kind"] == "remoteAuthorizer":
+            for pol in {g.policy_of(m, s.get("override", 0)) for s in steps}:
+                stats["dim:expression_" + ("none" if not pol else "level" if isinstance(pol, int) else str(pol))] += 1
+        for s in steps:
+            stats["dim:step_" + s.get("_mut", "targeted")] += 1
+            if not g.cache_of(m, s.get("override", 0))[0]:
+                stats["dim:step_under_rule_with_cache_disabled"] += 1
+        if "ep" in m:
+            stats["dim:endpoint_headers_%d" % min(len(m["ep"].get("headers") or {}), 4)] += 1
+        if "values" in m:
+            stats["dim:values_%d" % min(len(m["values"]), 4)] += 1
+        if m.get("fwd_resp"):
+            stats["dim:forwards_response_headers"] += 1
+        if g.cache_of(m, 0)[0] is False and any(g.cache_of(m, k + 1)[0] for k in range(len(m["overrides"]))):
+            stats["dim:prototype_disabled_override_enabled"] += 1
         mres = vlib.res_of(mo)
         if isinstance(mo, dict) and "stats" in mo:
             stats["model_hits"] += mo["stats"].get("hits", 0)
@@ -373,14 +425,27 @@ def aux_histories(rng, n):
             out.append(("clientCredentialsKey", steps))
         else:
             steps = []
-            vary = rng.random() < 0.3
+            vary = rng.random() < 0.2
+            cred = rng.choice([None, "hdr", "api_header", "api_cookie", "basic", "auth_hdr"])
             for _ in range(rng.choice([3, 4, 6])):
                 s = {"url": g.SRV + "/http/" + rng.choice(["a", "b"]) + ("?vary=1" if vary else ""),
-                     "method": rng.choice(["GET", "GET", "POST", ""])}
+                     "method": rng.choice(["GET", "GET", "GET", "POST", ""])}
                 if s["method"] != "GET" and rng.random() < 0.8:
                     s["body"] = rng.choice(["token=t1", "token=t2"])
                 if vary:
                     s["headers"] = {"X-Tenant": rng.choice(["t1", "t2"])}
+                # what identifies the caller travels outside the Authorization header; the server sends no Vary
+                v = rng.choice(["good", "bad"])
+                if cred == "hdr":
+                    s["headers"] = dict(s.get("headers") or {}, **{"X-Api-Key": v, "X-User": rng.choice(["u1", "u2"])})
+                elif cred == "api_header":
+                    s["auth"] = {"type": "api_key", "in": "header", "name": "X-Key", "value": v}
+                elif cred == "api_cookie":
+                    s["auth"] = {"type": "api_key", "in": "cookie", "name": "sid", "value": v}
+                elif cred == "basic":
+                    s["auth"] = {"type": "basic_auth", "user": "u", "password": v}
+                elif cred == "auth_hdr":
+                    s["headers"] = dict(s.get("headers") or {}, Authorization="Bearer " + v)
                 steps.append(s)
             out.append(("httpCache", steps))
     return out
@@ -399,12 +464,27 @@ def aux_driver_case(fn, steps, impl):
             dsteps.append({"t": i, "env": g.cc_env(cc), "policy": 0, "enabled": True, "ttl": 10 ** 6})
         else:
             method = s["method"] or "POST"
-            env = g.plain_env("httpCache", {"method": method, "url": s["url"].replace(g.SRV, srv)})
+            hdrs = wire_headers(s)
+            env = g.plain_env("httpCache", {"method": method, "url": s["url"].replace(g.SRV, srv), "headers": hdrs})
             cacheable = method in ("GET", "HEAD") and not s.get("body")
-            dsteps.append({"t": i, "env": env, "policy": 0, "enabled": cacheable,
-                           "ttl": 0 if "vary=1" in s["url"] else 10 ** 6})
+            # the response of the echo server carries max-age only: not storable for a request with Authorization
+            storable = "vary=1" not in s["url"] and "Authorization" not in hdrs
+            dsteps.append({"t": i, "env": env, "policy": 0, "enabled": cacheable, "ttl": 10 ** 6 if storable else 0})
     return {"fam": "cachekey", "op": "run", "fn": fn, "steps": dsteps, "verdicts": [],
             "fails": [j for j, r in enumerate(impl["off"]) if r["out"] == "communication"]}
+
+
+def wire_headers(s):
+    """the header fields `Endpoint.CreateRequest` and the authentication strategy put on the request"""
+    hdrs = dict(s.get("headers") or {})
+    a = s.get("auth")
+    if a and a["type"] == "api_key" and a["in"] == "header":
+        hdrs[a["name"]] = a["value"]
+    elif a and a["type"] == "api_key" and a["in"] == "cookie":
+        hdrs["Cookie"] = "%s=%s" % (a["name"], a["value"])
+    elif a and a["type"] == "basic_auth":
+        hdrs["Authorization"] = "Basic " + base64.b64encode(("%s:%s" % (a["user"], a["password"])).encode()).decode()
+    return hdrs
 
 
 def run_aux(R, exe, hist, stats):
@@ -422,6 +502,12 @@ def run_aux(R, exe, hist, stats):
             continue
         stats["steps"] += len(steps)
         stats["hits"] += sum(1 for r in i["on"] if r["hit"])
+        if fn == "httpCache":
+            for s in steps:
+                a = s.get("auth")
+                stats["dim:http_credential_" + (a["type"] + "_" + a.get("in", "") if a else
+                                                "header" if "X-Api-Key" in (s.get("headers") or {}) else
+                                                "authorization" if "Authorization" in (s.get("headers") or {}) else "none")] += 1
         mres = vlib.res_of(mo)
         v = []
         on, off = i["on"], i["off"]
@@ -541,7 +627,8 @@ def run(R):
     hist = ([(c["mech"], c["steps"]) for c in chist] or targeted()) + policy_matrix()
     n_t = len(hist)
     for _ in range(800 if quick else 18000):
-        hist.append(g.gen_history(R.rng, R.rng.choice(g.MECHS + ["remoteAuthorizer", "introspection"])))
+        hist.append(g.gen_history(R.rng, R.rng.choice(g.MECHS + ["remoteAuthorizer", "introspection", "ccFinalizer",
+                                                                 "remoteAuthorizer", "genericContextualizer"])))
     bad = run_histories(R, exe, hist, stats)
     for idx, v, impl, mo in pick(bad, hist, 10):
         m, steps = hist[idx]
@@ -579,7 +666,10 @@ def run(R):
             stats["known_finding_reproduced"] += 1
 
     nontriv = set()
+    facts = vlib.res_of(vlib.run_cases(vlib.driver_cmd(), [{"fam": "cachekey", "op": "facts"}])[0])
     R.coverage.update({
+        "key_users_domain_separated": bool(isinstance(facts, dict) and facts.get("key_users_domain_separated")),
+        "cache_sites_enumerated": facts.get("cache_sites") if isinstance(facts, dict) else None,
         "evaluations": stats["key_cases"] + stats["histories"],
         "rule": "key cases: one configuration of a key function (10 directly called functions, 6 mechanisms executed "
                 "through their factories with rule-level overrides) evaluated 16-40 times, compared with SHA-256 of the "
@@ -604,8 +694,18 @@ def run(R):
         "real mechanisms (requests differing in one component, cache on versus off)",
         "endpoint url/header templates of the remote authorizer and generic contextualizer that read .Outputs directly are "
         "outside the proved statement (reported finding, see design/C11.md)",
-        "expiry of entries (time beyond the TTL) is covered by the model theorems only; the real-code histories stay "
-        "within the TTL (property C10 covers lifetimes)",
+        "time: fresh / accept of the model are time independent and the real-code histories run with a frozen clock (entries "
+        "never expire, responses carry a fixed far expiry); that an entry never outlives the validity of what it holds is "
+        "property C10 (Props/C10.lean: c10_ttl_le_remaining, c10_reuse_within_validity, c10_authn_not_accepted_after_expiry, "
+        "c10_key_not_used_after_cert_expiry, c10_token_not_handed_out_expired, c10_http_served_only_while_fresh); C11 proves "
+        "expiry only in its own store model (c11_reuse: hits before t + ttl)",
+        "the serialisation used for caching loses nothing (hypothesis Lossless of c11_transparent; counterexample theorem "
+        "c11_lossy_cache_changes_decision); validated on the real mechanisms by comparing the typed result (%#v) and the "
+        "upstream headers with the cache on and off for JSON, YAML, form, text and empty responses",
+        "cross-user separation of keys in the shared cache is proved under usersSeparated (constants of fixes/C11-9); the "
+        "evidence field key_users_domain_separated tells whether the current source satisfies it",
+        "decisions of the echo server / decoders / CEL predicted by the check itself (accepts, predicted_failure in "
+        "tools/props/c11.py) are cross-checked against the uncached run on every history (kind 'oracle')",
     ]
     # distinct non-trivial inputs
     for (c, me) in pairs + mk:
